@@ -26,11 +26,16 @@ impl File {
     pub uninterp spec fn trace(&self) -> Seq<IoEv>;
     pub uninterp spec fn pos(&self) -> u64;         // current offset
     pub uninterp spec fn len(&self) -> u64;         // current length
+    // a fact that only grows while the handle lives (the code never truncates): the file is at least n bytes long
+    pub uninterp spec fn allocated_at_least(&self, n: u64) -> bool;
+    pub open spec fn keeps_allocation(&self, before: &File) -> bool {
+        forall|n: u64| before.allocated_at_least(n) ==> #[trigger] self.allocated_at_least(n)
+    }
 
     #[verifier::external_body]
     pub fn seek(&mut self, to: SeekFrom) -> (r: core::result::Result<u64, std::io::Error>)
         ensures
-            final(self).len() == old(self).len(),
+            final(self).len() == old(self).len(), final(self).keeps_allocation(old(self)),
             to matches SeekFrom::Start(off) ==> {
                 &&& final(self).trace() == old(self).trace().push(IoEv::Seek { off })
                 &&& (r is Ok ==> final(self).pos() == off)
@@ -43,6 +48,7 @@ impl File {
             r is Ok ==> final(self).trace() == old(self).trace().push(IoEv::Write { off: old(self).pos(), bytes: buf@ }),
             r is Err ==> final(self).trace() == old(self).trace().push(IoEv::WriteFailed { off: old(self).pos() }),
             r is Ok ==> final(self).len() >= old(self).len(),
+            final(self).keeps_allocation(old(self)),
     { unimplemented!() }
 
     #[verifier::external_body]
@@ -50,7 +56,7 @@ impl File {
         ensures
             r is Ok ==> final(self).trace() == old(self).trace().push(IoEv::Flush),
             r is Err ==> final(self).trace() == old(self).trace().push(IoEv::FlushFailed),
-            final(self).len() == old(self).len(),
+            final(self).len() == old(self).len(), final(self).keeps_allocation(old(self)),
     { unimplemented!() }
 
     // std's sync_all takes &self; the stand-in takes &mut self so that the ghost trace can record it
@@ -59,7 +65,7 @@ impl File {
         ensures
             r is Ok ==> final(self).trace() == old(self).trace().push(IoEv::Sync),
             r is Err ==> final(self).trace() == old(self).trace().push(IoEv::SyncFailed),
-            final(self).len() == old(self).len(), final(self).pos() == old(self).pos(),
+            final(self).len() == old(self).len(), final(self).pos() == old(self).pos(), final(self).keeps_allocation(old(self)),
     { unimplemented!() }
 
     #[verifier::external_body]
